@@ -8,6 +8,7 @@ import (
 	"github.com/orda-io/orda/client/pkg/internal/datatypes"
 	"github.com/orda-io/orda/client/pkg/model"
 	"github.com/orda-io/orda/client/pkg/operations"
+	"github.com/orda-io/orda/client/pkg/types"
 	"github.com/orda-io/orda/client/pkg/utils"
 	"github.com/wI2L/jsondiff"
 	"strconv"
@@ -269,7 +270,7 @@ func (its *document) PutToObject(key string, value interface{}) (Document, error
 	if err := its.assertLocalOp("PutToObject", TypeJSONObject, false); err != nil {
 		return nil, err
 	}
-	if value == nil {
+	if types.IsNull(value) {
 		return nil, errors.DatatypeIllegalParameters.New(its.L(), "null value is not allowed")
 	}
 	op := operations.NewDocPutInObjOperation(its.snapshot().getCreateTime(), key, value)
@@ -443,7 +444,7 @@ func (its *document) toDocument(child jsonType) Document {
 }
 func (its *document) assertNoNullValue(values []interface{}) errors.OrdaError {
 	for _, v := range values {
-		if v == nil {
+		if types.IsNull(v) {
 			return errors.DatatypeIllegalParameters.New(its.L(), "null value is not allowed")
 		}
 	}
